@@ -110,6 +110,7 @@ class Kernel:
         self.lockfiles: dict[str, int] = {}   # lock-file name -> inode
         self.next_ino = 0
         self._normcache: dict[str, str] = {}
+        self.symlinks: dict[str, str] = {}     # simulated symbolic links: absolute link path -> target (absolute, or relative to the link's directory)
         self.observers: list = []  # callables(kernel, event) run after each event
 
     # ------------------------------------------------------------------ helpers
@@ -118,10 +119,32 @@ class Kernel:
         r = self._normcache.get(p)
         if r is None:
             q = p if os.path.isabs(p) else os.path.join(self.root, p)
-            # realpath: symbolic links that exist on the real file system (the sandbox's `ln -> .` and
+            # simulated symbolic links first (they can be re-pointed during a run) ...
+            for _ in range(16):
+                if not self.symlinks:
+                    break
+                parts = os.path.normpath(q).split(os.sep)
+                for i in range(2, len(parts) + 1):
+                    prefix = os.sep.join(parts[:i])
+                    tgt = self.symlinks.get(prefix)
+                    if tgt is not None:
+                        base = tgt if os.path.isabs(tgt) else os.path.join(os.path.dirname(prefix), tgt)
+                        q = os.path.normpath(os.path.join(base, *parts[i:]))
+                        break
+                else:
+                    break
+            # ... then realpath: symbolic links that exist on the real file system (the sandbox's `ln -> .` and
             # `lnk_libN.ukv -> libN.ukv`) alias names here exactly as they do for molli's rwlock()
             r = self._normcache[p] = os.path.realpath(q)
         return r
+
+    def symlink(self, link, target):
+        """Create or RE-POINT a simulated symbolic link (path resolution of every process sees it from now on)."""
+        lp = link if os.path.isabs(os.fspath(link)) else os.path.join(self.root, os.fspath(link))
+        pid, _ = self._enter("symlink", os.path.normpath(lp))
+        self.symlinks[os.path.normpath(lp)] = os.fspath(target)
+        self._normcache.clear()
+        self._event(pid, "symlink", os.path.normpath(lp), os.fspath(target))
 
     def set_phase(self, label: str | None, pid: int | None = None):
         self.phase[self.cur_pid if pid is None else pid] = label
